@@ -650,13 +650,19 @@ def _stop_at_guard_test(outcome):
     """Did interpretation stop while evaluating the test of a guard site (predicate not evaluable)?"""
     if outcome.kind != "stop" or not outcome.stack:
         return False
-    if outcome.work_before:
-        # numeric work (unknown values) precedes this statement: the run is past the guard prefix, deep in the body;
-        # an unknown shape test of some helper there says nothing about the cell -> "not rejected", not "undecidable"
+    if any(isinstance(st, (ast.For, ast.While, ast.AsyncFor)) for (_d, _f, st) in outcome.stack):
+        # the run is inside a loop: past every guard prefix (no domain guard of the table, own or delegated, sits in a
+        # loop), deep in the numeric body; an unknown shape test of some helper there says nothing about the cell
+        # -> "not rejected", not "undecidable"
         return False
     d, fi, stmt = outcome.stack[-1]
     try:
-        return id(stmt) in guard_test_sites(fi)
+        if id(stmt) not in guard_test_sites(fi):
+            return False
+        sites = [g for g in extract_guards(fi) if g.test_stmt is stmt or g.node is stmt]
+        if sites and all((fi.module.name, fi.qualname, g.exc) in NOT_DOMAIN_GUARDS for g in sites):
+            return False        # a listed data-dependent raise (zero pivot, zero-norm start vector ...): not a domain guard
+        return True
     except Exception:
         return False
 
